@@ -950,6 +950,11 @@ class SupportComplexDataType(Element):
                 datatype != self.datatype:
             raise OperationNotAllowed("Cannot change datatype using STRICT validation")
 
+        if hasattr(self, 'children') and len(self.children) >= 1 and \
+                not is_base_datatype(self.datatype, self.version):
+            # checked before touching the structure, otherwise the refused change would be half done
+            raise OperationNotAllowed("Cannot change datatype: the Element already contains children")
+
         # This will change the structure of the Field/Component so it is done only if the structure
         # is really changed. That's because the first time the datatype is set by the Element._find_structure method
         if not is_base_datatype(datatype, self.version) and \
@@ -965,9 +970,14 @@ class SupportComplexDataType(Element):
 
         if hasattr(self, 'children') and len(self.children) >= 1:
             if is_base_datatype(self.datatype, self.version):
+                previous_datatype = self._datatype
                 self._datatype = datatype
                 if is_base_datatype(datatype, self.version):
-                    self.children[0].datatype = datatype
+                    try:
+                        self.children[0].datatype = datatype
+                    except Exception:
+                        self._datatype = previous_datatype  # the child refused the change
+                        raise
             else:
                 raise OperationNotAllowed("Cannot change datatype: the Element already contains children")
         else:
